@@ -55,6 +55,8 @@ _de += [
       "every UTF-8 string of <= 2 bytes round-trips through Any", kind="bounded", bound="strings of <= 2 bytes", timeout=300),
     H("rt_bytes_len2", "C13.K.bytes_roundtrip.len2", DE, ["Deserializer<'de> for Any::deserialize_bytes", "Deserializer<'de> for Any::deserialize_byte_buf", SER + "::Serializer for AnySerializer::serialize_bytes"],
       "every 2-byte binary value round-trips through Any (ByteBuf-shaped type)", kind="bounded", bound="2-byte values", timeout=300),
+    H("rt_string_and_bytes_40", "C13.K.long_payload_roundtrip", DE, ["Deserializer<'de> for Any::deserialize_any", "Deserializer<'de> for Any::deserialize_byte_buf", SER + "::Serializer for AnySerializer::serialize_str", SER + "::Serializer for AnySerializer::serialize_bytes"],
+      "a 40-byte string and a 40-byte binary value survive typed -> any -> typed byte for byte", kind="bounded", bound="2 concrete 40-byte payloads", timeout=400),
     H("rt_char", "C13.K.scalar_roundtrip.char", DE, ["Deserializer<'de> for Any::deserialize_any"], "char round trip, all scalar values (stored as a string)"),
 ]
 for t in ["bool"] + INTS + ["char", "f32", "f64"]:
